@@ -23,17 +23,17 @@ import (
 // 320 = 10 x 32 and 8 320 = 260 x 32, so every subset of the 5-extension list is used equally often.
 func cases(tier string) int {
 	if tier == "thorough" {
-		return 8320
+		return 33280
 	}
-	return 320
+	return 2560
 }
 
 // cliEvery is odd, so the CLI slice walks through all extension subsets as well.
 func cliEvery(tier string) int {
 	if tier == "thorough" {
-		return 23 // ~360 CLI runs
+		return 61 // ~550 CLI runs
 	}
-	return 7 // ~45 CLI runs
+	return 37 // ~70 CLI runs
 }
 
 var Check = &run.Check{
